@@ -119,6 +119,20 @@ CopyObject(sb, sk, b, k) ==
             /\ UNCHANGED <<bkts, ups, nup>>
             /\ Log("CopyObject", a, OK([vid |-> WrittenVid(b), etag |-> src.c]))
 
+\* copy source "sb/sk?versionId=vid": the named version (not a marker) is the source.  With
+\* sk = k this is how a key is rolled back to an older version: a write like any other - a
+\* new version on top, the source version and everything else stay as they are.
+CopyObjectVersion(sb, sk, vid, b, k) ==
+    LET a == [sb |-> sb, sk |-> sk, vid |-> vid, b |-> b, k |-> k] IN
+    /\ IF ~Exists(sb) \/ ~Exists(b) THEN UNCHANGED state /\ Log("CopyObjectVersion", a, Err("NoSuchBucket"))
+       ELSE IF ~HasVid(Stack(sb, sk), vid) THEN UNCHANGED state /\ Log("CopyObjectVersion", a, Err("NoSuchVersion"))
+       ELSE IF EntryOf(Stack(sb, sk), vid).dm THEN UNCHANGED state /\ Log("CopyObjectVersion", a, Err("MethodNotAllowed"))
+       ELSE LET src == EntryOf(Stack(sb, sk), vid) IN
+            /\ objs' = [objs EXCEPT ![<<b, k>>] = Written(b, k, src.c, src.meta, src.tags)]
+            /\ BumpVid(b)
+            /\ UNCHANGED <<bkts, ups, nup>>
+            /\ Log("CopyObjectVersion", a, OK([vid |-> WrittenVid(b), etag |-> src.c]))
+
 (***************************** reading ************************************)
 ReadReply(e) == OK([c |-> e.c, etag |-> e.c, meta |-> e.meta, tags |-> e.tags, vid |-> e.vid])
 
